@@ -36,19 +36,33 @@ pub struct GraphDump {
     pub errors: Vec<String>,
 }
 
-/// One call of [`permute`]: where, and how many elements were offered.
-#[derive(Debug, Clone, PartialEq, Eq)]
+/// One call of [`permute`]: where, how many elements were offered, and a fingerprint of the
+/// (order-independent) content, so that a call can be identified even though the order of calls
+/// itself depends on hash-map iteration.
+#[derive(Debug, Clone, PartialEq, Eq, PartialOrd, Ord)]
 pub struct SeamCall {
     pub site: &'static str,
     pub len: usize,
+    pub fingerprint: u64,
+    /// how many earlier calls of this run had the same site and fingerprint
+    pub occurrence: usize,
+}
+
+/// "At the call identified by (site, fingerprint, occurrence), arrange the elements so that
+/// new[i] = canonical[perm[i]]", canonical being the elements sorted by their Debug rendering.
+#[derive(Debug, Clone, PartialEq, Eq)]
+pub struct SeamScript {
+    pub site: String,
+    pub fingerprint: u64,
+    pub occurrence: usize,
+    pub perm: Vec<usize>,
 }
 
 #[derive(Default)]
 struct Ctl {
     graph: Option<GraphDump>,
     seam_log: Vec<SeamCall>,
-    /// (index of the seam call, permutation to apply there)
-    script: Vec<(usize, Vec<usize>)>,
+    script: Vec<SeamScript>,
     state_machine: Option<bool>,
 }
 
@@ -103,9 +117,8 @@ pub fn take_graph() -> Option<GraphDump> {
     CTL.with(|c| c.borrow_mut().graph.take())
 }
 
-/// Reset the seam log and install a script: at the `k`-th seam call (0-based, counted since this
-/// reset) the elements are rearranged so that new[i] = old[perm[i]].
-pub fn seam_reset(script: Vec<(usize, Vec<usize>)>) {
+/// Reset the seam log and install a script (empty = leave every order as it comes).
+pub fn seam_reset(script: Vec<SeamScript>) {
     CTL.with(|c| {
         let mut c = c.borrow_mut();
         c.seam_log.clear();
@@ -118,27 +131,41 @@ pub fn seam_log() -> Vec<SeamCall> {
     CTL.with(|c| c.borrow().seam_log.clone())
 }
 
-pub(crate) fn permute<T>(site: &'static str, v: &mut [T]) {
-    let perm = CTL.with(|c| {
+pub(crate) fn permute<T: std::fmt::Debug>(site: &'static str, v: &mut [T]) {
+    use std::hash::{Hash, Hasher};
+    let keys: Vec<String> = v.iter().map(|x| format!("{x:?}")).collect();
+    let mut canon: Vec<usize> = (0..v.len()).collect();
+    canon.sort_by(|a, b| keys[*a].cmp(&keys[*b]));
+    #[allow(deprecated)]
+    let mut h = std::hash::SipHasher::new();
+    for &i in &canon {
+        keys[i].hash(&mut h);
+    }
+    let fingerprint = h.finish();
+    let order = CTL.with(|c| {
         let mut c = c.borrow_mut();
-        let k = c.seam_log.len();
-        c.seam_log.push(SeamCall { site, len: v.len() });
+        let occurrence = c
+            .seam_log
+            .iter()
+            .filter(|s| s.site == site && s.fingerprint == fingerprint)
+            .count();
+        c.seam_log.push(SeamCall { site, len: v.len(), fingerprint, occurrence });
         c.script
             .iter()
-            .find(|(at, p)| *at == k && p.len() == v.len())
-            .map(|(_, p)| p.clone())
+            .find(|s| s.site == site && s.fingerprint == fingerprint && s.occurrence == occurrence && s.perm.len() == v.len())
+            .map(|s| s.perm.iter().map(|&p| canon[p]).collect::<Vec<usize>>())
     });
-    if let Some(perm) = perm {
-        // new[i] = old[perm[i]], in place, by cycles
-        let mut done = vec![false; perm.len()];
-        for start in 0..perm.len() {
+    if let Some(order) = order {
+        // new[i] = old[order[i]], in place, by cycles
+        let mut done = vec![false; order.len()];
+        for start in 0..order.len() {
             if done[start] {
                 continue;
             }
             let mut i = start;
             loop {
                 done[i] = true;
-                let j = perm[i];
+                let j = order[i];
                 if j == start || done[j] {
                     break;
                 }
